@@ -11,8 +11,8 @@ CONSTANTS Messages <- MCMessages
           SzBig = 60
           SzErr = 40
           SzInv = 43
-          CallMethods = {"ret", "blk", "big", "err"}
-          NotifMethods = {"ret", "blk"}
+          CallMethods = {"ret", "blk", "cblk", "big", "err"}
+          NotifMethods = {"ret", "blk", "cblk"}
           InvIds = {0, 1}
           WithResp = TRUE
           MaxBatch = 2
